@@ -945,6 +945,8 @@ def own_compose(ctx: Ctx) -> RuleResult:
                         return False
                     if not src and rets[0].value.id == p0:
                         return False
+                if len(rets) > 1 and any(isinstance(x.value, ast.Name) and x.value.id == p0 for x in rets):
+                    return False  # some nodes are handed back uncopied
                 if len(rets) == 1 and isinstance(rets[0].value, ast.Call) and dotted(rets[0].value.func) == "deepcopy":
                     return True
         return None
@@ -1113,7 +1115,73 @@ def own_liveresults(ctx: Ctx) -> RuleResult:
     return r
 
 
+def own_nodeepval(ctx: Ctx) -> RuleResult:
+    """Result VALUES are never deep-copied: a mapping of results is copied shallowly (the values keep their identity).
+
+    Setup results are reused by reference (a connection, a model, a sentinel compared with `is`); a deep copy of a results mapping
+    hands an execution (or a composed DAG) clones of them."""
+    r = RuleResult("OWN-NODEEPVAL")
+    n = 0
+    for f in ctx.funcs():
+        if f.module.name.endswith("_twzsa_control"):
+            continue
+        for c in iter_own_nodes(f.node):
+            if not (isinstance(c, ast.Call) and dotted(c.func) in ("deepcopy", "copy.deepcopy") and c.args):
+                continue
+            n += 1
+            a = c.args[0]
+            t = ctx.type_of(f, a)
+            src = norm_src(a)
+            is_results = src.split(".")[-1] in ("results", "result", "res") or src.endswith("_results") \
+                or (t and t[0] == "dict" and len(t) > 3 and str(t[3]).endswith("StrictDict") and "results" in src)
+            r.ob(not is_results, {"deep copy of": src, "in": f.short})
+            if is_results:
+                r.violate(f"{f.short}: result values are deep-copied ({src})", f.loc(c),
+                          "the values produced by setup nodes (and defaults / constants) are shared by reference: a deep copy gives this "
+                          "execution - or the composed DAG - clones: a stateful resource exists twice, `value is sentinel` is False",
+                          norm_src(c))
+    r.require(n >= 2, f"only {n} deepcopy calls found")
+    return r
+
+
+def own_execflag(ctx: Ctx) -> RuleResult:
+    """An executor is marked as executed only once its run has returned: a run that fails leaves it free to run again."""
+    r = RuleResult("OWN-EXECFLAG")
+    base = ctx.P.classes.get(ctx.cls_q("BaseDAGExecution"))
+    r.require(base is not None, "executor base class not found")
+    sets = []
+    for ci in ctx.P.subclasses(base.qualname):
+        for mth in ci.methods.values():
+            for n in iter_own_nodes(mth.node):
+                if isinstance(n, ast.Assign) and norm_src(n.targets[0]) == "self.executed" and isinstance(n.value, ast.Constant) and n.value.value is True:
+                    sets.append((mth, n))
+    r.require(len(sets) >= 1, "no place marks the executor as executed")
+    for mth, n in sets:
+        runs = [c for c, q in ctx.calls_in(mth) if q in ctx.P.funcs and ctx.P.funcs[q].name == "run_subgraph"]
+        if not runs:
+            # set in a helper: every caller must call it after its run
+            okc = True
+            for cf, call in ctx.callers_of(mth.qualname):
+                r2 = [c for c, q in ctx.calls_in(cf) if q in ctx.P.funcs and ctx.P.funcs[q].name == "run_subgraph"]
+                if r2 and not all(getattr(c, "lineno", 0) < getattr(call, "lineno", 0)
+                                  or any(c is x for a_ in list(call.args) + [k.value for k in call.keywords] for x in ast.walk(a_))
+                                  for c in r2):
+                    okc = False  # (a run written as an ARGUMENT of the helper call is evaluated before the call)
+            r.ob(okc, {"executed set in": mth.short, "called after the run by every caller": okc})
+            if not okc:
+                r.violate(f"{mth.short}: the executor is marked as executed before its run", mth.loc(n), "", norm_src(n))
+            continue
+        ok = all(getattr(c, "lineno", 0) < getattr(n, "lineno", 0) for c in runs)
+        r.ob(ok, {"executed set in": mth.short, "after the run": ok})
+        if not ok:
+            r.violate(f"{mth.short}: the executor is marked as executed before its run has returned", mth.loc(n),
+                      "when a node fails the run raises and the flag stays set: the executor refuses the retry that its twin accepts "
+                      "(TawaziUsageError), its results property raises, and no setup result of that run is recorded", norm_src(n))
+    return r
+
+
 RULES = {
+    "OWN-NODEEPVAL": own_nodeepval, "OWN-EXECFLAG": own_execflag,
     "OWN-LIVERESULTS": own_liveresults,
     "OWN-WBCOMPLETE": own_wbcomplete,
     "OWN-RUN": own_run, "OWN-WRITEBACK": own_writeback, "OWN-SETUP": own_setup, "OWN-CONSUME": own_consume, "OWN-ARGS": own_args,
